@@ -83,6 +83,39 @@ empty @is_you(int n, int k) {
 '''
 
 
+def const_index_program():
+    """indices that are compile-time constants (the compiler may reason about them) on arrays whose length it knows"""
+    return UTIL + r'''
+int[] gfirst = [1, 2, 3];
+int[] gsecond = [4, 5, 6];
+const byte[] gc = ['a', 'b', 'c'];
+bool[] gb = [true, false, true, true, false, true, true, false, true];
+empty @is_you(int n, int k) {
+    int[] first = [10, 20, 30];
+    int[] second = [40, 50, 60];
+    byte[] third = ['x', 'y', 'z'];
+    bool[] bits = [n > 0, true, false, n == k, true, false, true, true, n < k];
+    if (k == 1) { second[-1] = 99; }
+    if (k == 2) { first[3] = 98; }
+    if (k == 3) { gsecond[-1] = 97; }
+    if (k == 4) { gfirst[3] = 96; }
+    if (k == 5) { third[-1] = 'q'; }
+    if (k == 6) { write(gc[3]); }
+    if (k == 7) { write(gc[-1]); }
+    if (k == 8) { bits[-1] = true; }
+    if (k == 9) { bits[9] = true; }
+    if (k == 10) { gb[-8] = true; }
+    if (k == 11) { gb[16] = false; }
+    if (k == 12) { second[2] += first[-2]; }
+    if (k == 13) { write("str"[-1]); }
+    if (k == 14) { write("str"[3]); }
+    if (k == 15) { first[0] = second[2]; second[0] = first[2]; third[2] = 'w'; bits[8] = false; gb[0] = false; }
+    show(first); show(second); show(third); show(bits); show(gfirst); show(gsecond); show(gb);
+    writeln(n);
+}
+'''
+
+
 def recursion_program():
     return UTIL + r'''
 int rec(int n, int[] acc) {
@@ -163,6 +196,8 @@ def cases(seed, count):
     for n in (0, 5):
         for k in (1, 2, 3, 4, 5, 6):
             out.append(('literal-temps', literal_temps(), [str(n), str(k)]))
+    for k in range(0, 16):
+        out.append(('const-index', const_index_program(), [str(k % 3), str(k)]))
     for n in (0, 7, -1, 9999, -32768, 32767, 12345):
         out.append(('stdlib', stdlib_program(), [str(n), str(r.choice([0, 7, 8, 19]))]))
     for n in (0, 3, 8, 22):
